@@ -36,3 +36,13 @@ impl Rng {
         Rng(self.next())
     }
 }
+
+/// CPU time consumed by the calling thread, in milliseconds (clock ticks from /proc/thread-self/stat); `None` where /proc
+/// is not available. Time bounds are judged on this, so that a loaded machine does not look like a slow reader.
+pub fn thread_cpu_ms() -> Option<u128> {
+    let st = std::fs::read_to_string("/proc/thread-self/stat").ok()?;
+    let rest = &st[st.rfind(')')? + 1..];
+    let f: Vec<&str> = rest.split_whitespace().collect();
+    let (ut, stt): (u128, u128) = (f.get(11)?.parse().ok()?, f.get(12)?.parse().ok()?);
+    Some((ut + stt) * 10)
+}
